@@ -133,9 +133,16 @@ def r1_one_scope_function(ctx):
       continue
     builders.setdefault(callee.fq, callee)
     # the builder is applied to the loop's own (op, subgraph tensors)
-    args = [ast.unparse(a) for a in d.args]
-    ctx.check(R, len(args) == 2 and args[0] == 'op' and args[1].endswith('.tensors'), d, f, d,
-              'the scope must be built from the operator being visited and the tensors of its own subgraph')
+    inl0 = defuse.Inliner(ctx.repo, max_depth=0)
+    args = [defuse.norm(inl0.inline(f, a)) for a in d.args]
+    lt = [(l, names) for l, names in common.loop_targets(f.node, '.operators') if d in list(ast.walk(l))]
+    ok = False
+    if len(lt) == 1 and len(args) == 2:
+      l, names = lt[0]
+      it = l.iter.args[0] if isinstance(l.iter, ast.Call) and l.iter.args else l.iter
+      owner = defuse.norm(inl0.inline(f, it.value)) if isinstance(it, ast.Attribute) else None
+      ok = args[0] == names[-1] and owner is not None and args[1] == f'{owner}.tensors'
+    ctx.check(R, ok, d, f, d, 'the scope must be built from the operator being visited and the tensors of its own subgraph')
   if len(builders) == 1:
     ctx.check(R, True, None or list(builders.values())[0].node, list(builders.values())[0], 'single shared scope builder', '')
   else:
